@@ -104,14 +104,34 @@ def check(src, width, kept, case, src2=None):
                             're-indented %s' % (width, i, show(out[max(0, i - 30):i + 30], 80),
                                                 show(out_r[max(0, i - 30):i + 30], 80), show(src, 140),
                                                 show(src2, 140)), case, 'reindent')
+    # (a2) the same program and line breaks with the other line-end style (LF <-> CR LF); sources with a line break
+    # inside a string literal are left out (there the line end is part of the program)
+    try:
+        multi_str = any(t.kind == 'string' and (b'\n' in t.text or b'\r' in t.text) for t in reflex.lex(src))
+    except reflex.Malformed:
+        multi_str = True
+    if not multi_str and b'\r' not in src.replace(b'\r\n', b''):
+        src3 = src.replace(b'\r\n', b'\n') if b'\r\n' in src else src.replace(b'\n', b'\r\n')
+        try:
+            out3 = fmt(src3, width)
+        except Exception as e:
+            raise Violation('luafmt raised %r on the program with %s line ends -- %s'
+                            % (e, 'LF' if b'\r\n' in src else 'CR LF', show(src3, 200)), case, 'raises')
+        if out3 != out:
+            i = next((i for i in range(min(len(out), len(out3))) if out[i] != out3[i]), min(len(out), len(out3)))
+            raise Violation('output depends on the line-end style of the input (indent %d): at byte %d %s vs %s -- input %s'
+                            % (width, i, show(out[max(0, i - 30):i + 30], 80), show(out3[max(0, i - 30):i + 30], 80),
+                               show(src, 160)), case, 'line-end-style')
     # (c) indentation == width x depth, (d) hygiene
     try:
         ref = reflex.lex(out)
     except reflex.Malformed as e:
         raise Violation('luafmt output does not lex: %s -- %s' % (e, show(out, 160)), case, 'relex')
+    # offsets inside multi-line string literals: their lines are program text, not layout.  Lines inside a
+    # multi-line comment are layout like any other line (the formatter re-writes comments up to whitespace).
     prot = set()
     for t in ref:
-        if t.kind in ('string', 'comment') and b'\n' in t.text:
+        if t.kind == 'string' and b'\n' in t.text:
             prot.update(range(t.start, t.end))
     sig = reflex.significant(ref)
     if kept is not None and len(sig) == len(kept):
@@ -194,6 +214,12 @@ def part_lines(ctx):
             labs.append('comments')
         if any(c[1].startswith(b'//') for c in lay.comments):
             labs.append('slash_comment')
+        if any(b'\n' in c[1] for c in lay.comments):
+            labs.append('multi_line_comment')
+            if b'\r\n' in src:
+                labs.append('multi_line_comment_crlf')
+        if len(lay.comments) >= 9:
+            labs.append('comments>=9')
         if depth >= 2:
             labs.append('depth>=2')
         if any(t.scope for t in lay.kept):
@@ -246,7 +272,7 @@ def replay(case):
 
 def vacuity(total, tier):
     msgs = []
-    for lab in ('blank_line_run', 'comments', 'slash_comment', 'depth>=2', 'short_if_or_print', 'width_0', 'width_8',
+    for lab in ('blank_line_run', 'comments', 'slash_comment', 'multi_line_comment', 'comments>=9', 'depth>=2', 'short_if_or_print', 'width_0', 'width_8',
                 'fixed_shape'):
         if total.classes.get(lab, 0) < 5:
             msgs.append('class %s seen %d times' % (lab, total.classes.get(lab, 0)))
